@@ -7,3 +7,5 @@ import "github.com/influxdata/kapacitor/edge"
 func verifHook(string, ...string) {}
 
 func verifEdgeCreated(edge.StatsEdge, string, string, string) {}
+
+func verifEdgeClosed(*Edge) {}
